@@ -144,6 +144,7 @@ var whitelist = []spec{
 	{pkg: "datafile", recv: "DataFile", fn: "readToBuf", fuel: []string{"file.size + 1"}},
 	// round 3 (loop 1 of zeroUntilEnd is a range loop: structural recursion on the length, no fuel)
 	{pkg: "datafile", recv: "DataFile", fn: "zeroUntilEnd", fuel: []string{"fileSize.toNat + 1"}},
+	{pkg: "datafile", recv: "DataReader", fn: "endOfLog"},
 	{pkg: "datafile", recv: "DataReader", fn: "next", fuel: []string{"file.size + 1"}},
 	{pkg: "index", fn: "nextPowerOfTwo"},
 	{pkg: "fio", recv: "MMap", fn: "remap", slice: &sliceSpec{assignTo: "m.endOff", lean: "remap_endOff", guard: "remap_covered"}},
@@ -1629,7 +1630,12 @@ func (t *tr) call(v *ast.CallExpr) (lx, []kind, bool) {
 		parts = append(parts, a.name)
 	}
 	for _, rf := range fi.recvFields {
-		parts = append(parts, t.recvFieldOrd(sub+rf.field, rf.k, rf.ord))
+		ord := rf.ord
+		if sub != "" {
+			_, subOrd, _ := t.recvChain(recvExpr)
+			ord = subOrd + rf.ord/1000 // the callee's field, seen from our receiver
+		}
+		parts = append(parts, t.recvFieldOrd(sub+rf.field, rf.k, ord))
 	}
 	for i, p := range fi.params {
 		parts = append(parts, par(t.exprWant(v.Args[i], p.k)))
@@ -2774,6 +2780,9 @@ func (t *tr) function() string {
 
 	o := &out{}
 	t.terminal(fd.Body.List, o, "  ", true)
+	// (round 3) receiver field parameters in declaration order, not first-use order: the signature of the
+	// generated definition does not change when statements are reordered
+	sort.SliceStable(t.recvFields, func(i, j int) bool { return t.recvFields[i].ord < t.recvFields[j].ord })
 
 	all := t.allParams()
 	stName := t.leanName + ".St"
